@@ -529,6 +529,40 @@ impl Array {
     }
 }
 
+/// The maximum depth of nested arrays that is written out in full
+const MAX_DISPLAY_DEPTH: usize = 128;
+
+impl Object {
+    /// Writes this object to the given formatter.
+    /// `parents` holds the arrays that are currently being written: an array that contains itself
+    /// (or that is nested too deep) is abbreviated to [...] instead of recursing forever.
+    fn fmt_nested(
+        &self,
+        f: &mut std::fmt::Formatter<'_>,
+        parents: &mut Vec<*mut u8>,
+    ) -> std::fmt::Result {
+        if self.tag() != Type::Array {
+            return Display::fmt(self, f);
+        }
+        if parents.contains(&self.as_ptr()) || parents.len() >= MAX_DISPLAY_DEPTH {
+            return f.write_str("[...]");
+        }
+
+        parents.push(self.as_ptr());
+        let values = unsafe { self.as_vec_unchecked() };
+        f.write_char('[')?;
+        for (i, obj) in values.iter().enumerate() {
+            if i > 0 {
+                f.write_str(", ")?;
+            }
+            obj.fmt_nested(f, parents)?;
+        }
+        f.write_char(']')?;
+        parents.pop();
+        Ok(())
+    }
+}
+
 impl Display for Object {
     fn fmt(&self, f: &mut std::fmt::Formatter<'_>) -> std::fmt::Result {
         match self.tag() {
@@ -537,17 +571,7 @@ impl Display for Object {
             Type::Float => unsafe { f.write_str(&self.as_f64_unchecked().to_string())? },
             Type::Int => f.write_str(&self.as_int().to_string())?,
             Type::String => unsafe { f.write_str(self.as_str_unchecked())? },
-            Type::Array => {
-                let values = unsafe { self.as_vec_unchecked() };
-                f.write_char('[')?;
-                for (i, obj) in values.iter().enumerate() {
-                    if i > 0 {
-                        f.write_str(", ")?;
-                    }
-                    std::fmt::Display::fmt(&obj, f)?;
-                }
-                f.write_char(']')?;
-            }
+            Type::Array => self.fmt_nested(f, &mut Vec::new())?,
             Type::Function => f.write_str("functie")?,
         }
         Ok(())
